@@ -92,6 +92,38 @@ class Protected:
             return False
         return True
 
+    def _restore_vars(self):
+        """locals that only ever receive the value of one field (or 0): writing them back to that field restores it"""
+        rv = getattr(self, "_rv", None)
+        if rv is not None:
+            return rv
+        rv, bad = {}, set()
+        for b, i, n in self.f.walk_all():
+            pairs = []
+            if n.get("k") == "bin" and n["op"].endswith("=") and n["op"] not in ("==", "!=", "<=", ">="):
+                l = strip(n["a"], lvalue_to_rvalue=False)
+                if l.get("k") == "ref" and "id" in l["d"]:
+                    pairs.append((l["d"]["id"], n["b"], n["op"]))
+            elif n.get("k") == "decl":
+                for v in n["vars"]:
+                    if v.get("init") is not None:
+                        pairs.append((v["id"], v["init"], "="))
+            elif n.get("k") == "un" and n.get("op") in ("++", "--"):
+                l = strip(n["e"], lvalue_to_rvalue=False)
+                if l.get("k") == "ref" and "id" in l["d"]:
+                    bad.add(l["d"]["id"])
+            for vid, rhs, op in pairs:
+                r = strip(rhs, all_casts=True)
+                arms = [strip(r["a"], all_casts=True), strip(r["b"], all_casts=True)] if r.get("k") == "cond" else [r]
+                flds = {a.get("f") for a in arms if a.get("k") == "mem"}
+                if op == "=" and len(flds) == 1 and all(a.get("k") == "mem" or cval(a) == 0 for a in arms):
+                    if rv.setdefault(vid, list(flds)[0]) != list(flds)[0]:
+                        bad.add(vid)
+                else:
+                    bad.add(vid)
+        self._rv = {k: v for k, v in rv.items() if k not in bad}
+        return self._rv
+
     def store_sites(self, el):
         """(node, description) for stores into the protected object inside element el"""
         out = []
@@ -99,6 +131,10 @@ class Protected:
             k = n.get("k")
             if k == "bin" and n["op"].endswith("=") and n["op"] not in ("==", "!=", "<=", ">="):
                 if is_deref_store(n["a"]) and root_of(n["a"]) in self.ids:
+                    l = strip(n["a"], lvalue_to_rvalue=False)
+                    v = strip(n["b"], all_casts=True)
+                    if n["op"] == "=" and l.get("k") == "mem" and v.get("k") == "ref" and self._restore_vars().get(v["d"].get("id")) == l.get("f"):
+                        continue      # restore idiom: puts back the value read from this field before the failed step
                     out.append(n)
             elif k == "un" and n.get("op") in ("++", "--"):
                 if is_deref_store(n["e"]) and root_of(n["e"]) in self.ids:
